@@ -1067,7 +1067,7 @@ fn exec_op(op: &Value, ctx: &mut Ctx) {
             let mut parts = Vec::new();
             for l in LogLevel::all_levels() {
                 if core.log_check(*l) {
-                    parts.push(format!("\"{}\"", l.name()));
+                    parts.push(format!("\"{}\"", l.name().to_lowercase()));
                 }
             }
             ev(format!(r#"{{"e":"logcheck","allowed":[{}]}}"#, parts.join(",")));
@@ -1076,7 +1076,7 @@ fn exec_op(op: &Value, ctx: &mut Ctx) {
             // Emit one record at the given level from this context
             let core = ctx.core().expect("needs core");
             let lvl: LogLevel = op["level"].as_str().unwrap().parse().unwrap();
-            ev(format!(r#"{{"e":"logcall","level":"{}"}}"#, lvl.name()));
+            ev(format!(r#"{{"e":"logcall","level":"{}"}}"#, lvl.name().to_lowercase()));
             core.log(0, lvl, "verif", format_args!("probe"), |_| {});
         }
         other => panic!("harness: unknown op {}", other),
@@ -1195,7 +1195,7 @@ fn top_op(op: &Value, stk: &mut Option<Stakker>) {
                     ev(format!(
                         r#"{{"e":"logrec","id":{},"level":"{}","parent":{},"marker":"{}"}}"#,
                         r.id,
-                        r.level.name(),
+                        r.level.name().to_lowercase(),
                         parent,
                         marker
                     ));
